@@ -118,6 +118,7 @@ theorem trace_within (l : IMAP) (hl : U32Limits l) (evs : List Ev) (p : Option N
           omega
       | create _ => simp [CheckThenInsert] at hc
       | addTx _ => simp [CheckThenInsert] at hc
+      | replaceTx _ _ => simp [CheckThenInsert] at hc
       | check _ _ => simp [CheckThenInsert] at hc
       | remove _ => simp [CheckThenInsert] at hc
       | deleteMailbox => simp [CheckThenInsert] at hc
@@ -148,6 +149,23 @@ theorem trace_within (l : IMAP) (hl : U32Limits l) (evs : List Ev) (p : Option N
         split
         · rename_i hck
           have := msgChecks_sound l hl w hw n hi.1 hck
+          refine ⟨?_, by simpa using hpass⟩
+          unfold Within
+          simp only [Int.natCast_add]
+          omega
+        · exact ⟨hw, hpass⟩
+      | replaceTx k n =>
+        simp only [EvsInt64] at hi
+        refine ⟨none, ?_, by simpa [NoImplicitParents] using hp, by simpa [CheckThenInsert] using hc, hi.2⟩
+        simp only [step]
+        split
+        · rename_i hck
+          have hw' : Within l { w with count := w.count - k } := by
+            unfold Within
+            simp only
+            omega
+          have := msgChecks_sound l hl _ hw' n hi.1 hck
+          simp only at this
           refine ⟨?_, by simpa using hpass⟩
           unfold Within
           simp only [Int.natCast_add]
